@@ -16,7 +16,7 @@ ASSUMPTIONS = [
 
 
 def tasks(tier):
-    return codec.layout_tasks("C01/")
+    return codec.layout_tasks("C01/") + codec.primitive_tasks("C01/")
 
 
 def replay(rec):
